@@ -204,6 +204,13 @@ def build(specs, batched):
         setls(k)
         k.angle = P("angle", (1, len(s0["angle"])))
         k.radius = P("radius", (1, len(s0["radius"])))
+    elif t == "arcm":
+        base = build([sp["base"] for sp in specs], False)
+        thr = torch.tensor(s0["thr"], dtype=torch.float64)
+        k = K.ArcKernel(base, delta_func=lambda x: (x > thr).to(x.dtype), ard_num_dims=ard(), **kw)
+        setls(k)
+        k.angle = P("angle", (1, len(s0["angle"])))
+        k.radius = P("radius", (1, len(s0["radius"])))
     elif t == "cyl":
         radial = build([sp["radial"] for sp in specs], batched)
         k = K.CylindricalKernel(num_angular_weights=len(s0["w"]), radial_base_kernel=radial, eps=s0["eps"], **kw)
@@ -233,6 +240,26 @@ def build(specs, batched):
     else:
         raise ValueError(f"unknown kernel spec {t}")
     return k.double()
+
+
+class StructureMismatch(Exception):
+    pass
+
+
+def tokens_by_spec(spec):
+    """Lean expression following the *spec* (the expression the user wrote), every leaf built on its own — used
+    when the composite object the library built does not have the structure of the expression."""
+    t = spec["t"]
+    if t in ("add", "mul"):
+        parts = [tokens_by_spec(sp) for sp in spec["ks"]]
+        s = parts[-1]
+        for p in reversed(parts[:-1]):
+            s = f"{t} {p} {s}"
+        return s
+    if t == "scale":
+        k = build([spec], False)
+        return f"scale {num(getp(k.outputscale, 0, False)[0])} {tokens_by_spec(spec['k'])}"
+    return tokens(spec, build([spec], False), 0, False)
 
 
 def getp(tensor, b, batched):
@@ -291,12 +318,17 @@ def tokens(spec, k, b, batched):
     elif t == "arc":
         s = (f"arc {tokens(spec['base'], k.base_kernel, 0, False)} {vec(g(k.lengthscale))} "
              f"{vec(g(k.angle))} {vec(g(k.radius))}")
+    elif t == "arcm":
+        s = (f"arcm {tokens(spec['base'], k.base_kernel, 0, False)} {vec(g(k.lengthscale))} "
+             f"{vec(g(k.angle))} {vec(g(k.radius))}")
     elif t == "cyl":
         s = (f"cyl {tokens(spec['radial'], k.radial_base_kernel, b, batched)} {vec(g(k.angular_weights))} "
              f"{num(g(k.alpha)[0])} {num(g(k.beta)[0])} {num(k.eps)}")
     elif t == "scale":
         s = f"scale {num(g(k.outputscale)[0])} {tokens(spec['k'], k.base_kernel, b, batched)}"
     elif t in ("add", "mul"):
+        if len(k.kernels) != len(spec["ks"]):
+            raise StructureMismatch(f"{type(k).__name__} holds {len(k.kernels)} parts, the expression has {len(spec['ks'])}")
         parts = [tokens(sp, kk, b, batched) for sp, kk in zip(spec["ks"], k.kernels)]
         s = parts[-1]
         for p in reversed(parts[:-1]):
@@ -383,6 +415,14 @@ def slack(spec, X1, X2, same):
     if t == "arc":
         e = lambda X: np.concatenate([np.array(spec["radius"]) * np.sin(math.pi * np.array(spec["angle"]) * X / np.array(spec["ls"])),  # noqa: E731,E501
                                       np.array(spec["radius"]) * np.cos(math.pi * np.array(spec["angle"]) * X / np.array(spec["ls"]))], 1)
+        return slack(spec["base"], e(A), e(B), same)
+    if t == "arcm":
+        thr = np.array(spec["thr"])
+
+        def e(X):
+            m = (X > thr).astype(float)
+            u = math.pi * np.array(spec["angle"]) * X / np.array(spec["ls"])
+            return np.concatenate([np.array(spec["radius"]) * np.sin(u) * m, np.array(spec["radius"]) * np.cos(u) * m], 1)
         return slack(spec["base"], e(A), e(B), same)
     if t == "cyl":
         ra, rb = np.linalg.norm(A, axis=1, keepdims=True), np.linalg.norm(B, axis=1, keepdims=True)
@@ -571,6 +611,15 @@ def gen_cases(ctx, rng):
             ("scale(add(mul))", {"t": "scale", "s": logu(rng, 0.1, 5.0),
                                  "k": {"t": "add", "ks": [{"t": "mul", "ks": [a, b]}, c]}}),
         ]
+        comps += [
+            ("a*(b+c)", {"t": "mul", "ks": [a, {"t": "add", "ks": [b, c]}]}),
+            ("(a+b)*c", {"t": "mul", "ks": [{"t": "add", "ks": [a, b]}, c]}),
+            ("a+(b*c)", {"t": "add", "ks": [a, {"t": "mul", "ks": [b, c]}]}),
+            ("(a*b)+c", {"t": "add", "ks": [{"t": "mul", "ks": [a, b]}, c]}),
+            ("(a+b)*(c+sa)", {"t": "mul", "ks": [{"t": "add", "ks": [a, b]}, {"t": "add", "ks": [c, sa]}]}),
+            ("(a*b)+(c*sa)", {"t": "add", "ks": [{"t": "mul", "ks": [a, b]}, {"t": "mul", "ks": [c, sa]}]}),
+            ("scale(scale)", {"t": "scale", "s": logu(rng, 0.1, 5.0), "k": sa}),
+        ]
         act = sorted(rng.sample(range(d), rng.randint(1, d - 1)))
         a_act = dict(rand_leaf(rng, "rbf", len(act), len(act) > 1), active=act)
         b_act = dict(rand_leaf(rng, "matern5", 1, False), active=[rng.randrange(d)])
@@ -654,6 +703,13 @@ def gen_cases(ctx, rng):
                 if flags.get("diag") and x2 is not None:
                     continue
                 emit(f"arc({base['t']})/{tag}", [sp], False, x1, x2, flags)
+        # Arc with a custom delta_func (conditional dimensions): δ_i(x) = (x_i > thr_i)
+        spm = dict(sp, t="arcm", thr=[rng.uniform(-1.0, 1.0) for _ in range(d)])
+        for tag, x1, x2 in input_variants(rng, d)[:3]:
+            for flags in [{}, {"diag": True}]:
+                if flags.get("diag") and x2 is not None:
+                    continue
+                emit(f"arc-delta_func({base['t']})/{tag}", [spm], False, x1, x2, flags)
         # Cylindrical: points strictly inside the unit ball, no zero coordinates
         d = rng.randint(2, 4)
         radial = rand_leaf(rng, rng.choice(["matern5", "rbf", "matern3"]), 1, False)
@@ -683,7 +739,7 @@ def family_of(spec):
              "cosine": "CosineKernel", "linear": "LinearKernel", "poly": "PolynomialKernel",
              "pp": "PiecewisePolynomialKernel", "const": "ConstantKernel", "sm": "SpectralMixtureKernel",
              "sdelta": "SpectralDeltaKernel", "rff": "RFFKernel", "hamming": "HammingIMQKernel",
-             "gskl": "GaussianSymmetrizedKLKernel", "arc": "ArcKernel", "cyl": "CylindricalKernel",
+             "gskl": "GaussianSymmetrizedKLKernel", "arc": "ArcKernel", "arcm": "ArcKernel", "cyl": "CylindricalKernel",
              "scale": "ScaleKernel", "add": "AdditiveKernel", "mul": "ProductKernel",
              "addstruct": "AdditiveStructureKernel", "prodstruct": "ProductStructureKernel",
              "ng": "NewtonGirardAdditiveKernel"}
@@ -747,7 +803,13 @@ def lean_lines(case, k):
         X2src = case["x2"] if case["x2"] is not None else case["x1"]
         X2 = X2src[b] if case.get("xbatch") else X2src
         spec = case["kern"][b if case["batched"] else 0]
-        lines.append((f"K {tokens(spec, k, b, case['batched'])} {mat(X1)} {mat(X2)}", spec, X1, X2))
+        try:
+            tk = tokens(spec, k, b, case["batched"])
+        except StructureMismatch:
+            tk = tokens_by_spec(spec)
+        aug = (lambda X: [list(r) + [1.0 if v > t_ else 0.0 for v, t_ in zip(r, spec["thr"])] for r in X]) \
+            if spec["t"] == "arcm" else (lambda X: X)
+        lines.append((f"K {tk} {mat(aug(X1))} {mat(aug(X2))}", spec, X1, X2))
     return lines
 
 
@@ -919,6 +981,55 @@ def grad_kernel_cases(ctx, rng, q):
                      f"{r['cname']} d={len(r['x1'][0])} n1={len(r['x1'])} n2={n2}: {type(e).__name__}: {str(e)[:160]}",
                      {"grad_case": {k_: v for k_, v in r.items() if k_ not in ("got", "h")}})
         r["auto"] = _autograd_matrix(r["kind"], r, len(r["x1"][0])) if r["tag"] in ("n1!=n2", "shared-row") else None
+    # ---- batch mode: kernel batch_shape [2] with per-batch parameters, inputs (2, n, d)
+    import torch
+    import gpytorch
+    import gpytorch.kernels as GK
+    for rep in range(max(1, reps // 2)):
+        for kind in ("rbfgrad", "m52grad", "polygrad", "rbfgradgrad"):
+            d = rng.randint(1, 3)
+            ardflag = kind != "polygrad" and d > 1 and rng.random() < 0.5
+            n1, n2 = rng.randint(1, 3), rng.randint(1, 4)
+            if n1 == n2:
+                n2 += 1
+            lsb = [[logu(rng, 0.5, 3.0) for _ in range(d if ardflag else 1)] for _ in range(2)]
+            xb1 = [rand_x(rng, n1, d, -1.5, 1.5) for _ in range(2)]
+            xb2 = [rand_x(rng, n2, d, -1.5, 1.5) for _ in range(2)]
+            p, cb = rng.randint(1, 4), [logu(rng, 0.05, 2.0) for _ in range(2)]
+            bs = torch.Size([2])
+            cls = {"rbfgrad": GK.RBFKernelGrad, "m52grad": GK.Matern52KernelGrad, "rbfgradgrad": GK.RBFKernelGradGrad}.get(kind)
+            if cls is None:
+                k = GK.PolynomialKernelGrad(power=p, batch_shape=bs).double()
+                k.offset = torch.tensor(cb, dtype=torch.float64).reshape(2, 1)
+            else:
+                k = cls(ard_num_dims=d if ardflag else None, batch_shape=bs).double()
+                k.lengthscale = torch.tensor(lsb, dtype=torch.float64).reshape(2, 1, -1)
+            for tag, X2 in (("n1!=n2", xb2), ("diag", None)):
+                X1t = torch.tensor(xb1, dtype=torch.float64)
+                try:
+                    with warnings.catch_warnings():
+                        warnings.simplefilter("ignore")
+                        with gpytorch.settings.lazily_evaluate_kernels(rng.random() < 0.5):
+                            if tag == "diag":
+                                got = k(X1t, diag=True).detach().numpy()
+                            else:
+                                got = k(X1t, torch.tensor(X2, dtype=torch.float64)).to_dense().detach().numpy()
+                except Exception as e:
+                    got = None
+                    ctx.fail(f"{type(k).__name__}/batch/{tag}/raises", f"{type(k).__name__} batch_shape=[2] d={d}: "
+                             f"{type(e).__name__}: {str(e)[:160]}", {"kind": kind, "x1": xb1, "x2": X2, "ls": lsb, "p": p, "c": cb})
+                for b in range(2):
+                    if cls is None:
+                        head = f"G polygrad {num(k.offset.detach()[b].item())} {p}"
+                    else:
+                        head = f"G {kind} {vec(k.lengthscale.detach()[b].reshape(-1).tolist())}"
+                    r = {"kind": kind, "ls": lsb[b], "ard": ardflag, "x1": xb1[b], "x2": None if X2 is None else X2[b],
+                         "tag": tag, "p": p, "c": cb[b], "cname": type(k).__name__ + "[batch]", "auto": None,
+                         "got": None if got is None else got[b]}
+                    r["h"] = q.ask(f"{head} {mat(xb1[b])} {mat(xb1[b] if X2 is None else X2[b])}")
+                    ctx.case({"gb": kind, "x1": xb1[b], "x2": r["x2"], "tag": tag, "ls": lsb[b], "p": p, "b": b},
+                             sample={"kernel": r["cname"], "tag": tag, "d": d})
+                    recs.append(r)
     ctx.count("grad_kernel_cases", len(recs))
 
     def finish():
